@@ -126,4 +126,8 @@ Theorem no_history_any gs es qs c : cache_inv gs c ->
 Proof.
   intros Hc. split; [apply (no_history vf2b enum gs es qs c Hc) | intros q; apply cache_inv_step; exact Hc].
 Qed.
+
+Theorem cache_consistent gs es qs gi na h :
+  cache_get (gi, na) (end_cache vf2b enum gs es qs []) = Some h -> h = wl1_hash na (gnth gs gi).
+Proof. apply (end_cache_inv vf2b enum gs es qs [] (cache_inv_nil gs)). Qed.
 End Final.
